@@ -76,9 +76,16 @@ M = [
     ('C14', 'sigs-after-subkey-attach-to-previous-uid', 'pgpy/pgp.py', "                    if pkt.header.tag != PacketTag.Signature:\n                        self.last", "                    if pkt.header.tag not in (PacketTag.Signature, PacketTag.PublicSubKey, PacketTag.SecretSubKey):\n                        self.last"),
     ('C14', 'exportable-filter-inverted-for-uid-sigs', 'pgpy/pgp.py', "            for s in [s for s in uid._signatures if s.exportable]:", "            for s in [s for s in uid._signatures if not s.exportable or s.signer == self.fingerprint.keyid]:"),
     ('C14', 'copy-skips-direct-signatures', 'pgpy/pgp.py', "            if sig.embedded:\n                # embedded signatures don't need to be explicitly copied\n                continue\n", "            if sig.embedded or sig.type == SignatureType.DirectlyOnKey:\n                continue\n"),
-    ('C14', 'insort-replaces-equal', 'pgpy/types.py', "        i = bisect.bisect_right(self, item)\n        self.rotate(- i)\n        self.appendleft(item)", "        i = bisect.bisect_right(self, item)\n        if i and not (self[i - 1] < item):\n            self[i - 1] = item\n            return\n        self.rotate(- i)\n        self.appendleft(item)"),
-    ('C14', 'insort-bisect-left-back', 'pgpy/types.py', "        i = bisect.bisect_right(self, item)", "        i = bisect.bisect_left(self, item)"),
+    ('C14', 'insort-replaces-equal', 'pgpy/types.py', "        i = bisect.bisect_left(self, item)\n        self.rotate(- i)\n        self.appendleft(item)", "        i = bisect.bisect_left(self, item)\n        if i < len(self) and not (item < self[i]):\n            self[i] = item\n            return\n        self.rotate(- i)\n        self.appendleft(item)"),
+    ('C14', 'uid-copy-forward-order', 'pgpy/pgp.py', "        for sig in reversed(self._signatures):\n            uid |= copy.copy(sig)", "        for sig in self._signatures:\n            uid |= copy.copy(sig)"),
     ('C14', 'uid-copy-drops-third-party-sigs', 'pgpy/pgp.py', "        for sig in self._signatures:\n            uid |= copy.copy(sig)\n        return uid", "        for sig in self._signatures:\n            if self.parent is None or sig.signer == self.parent.fingerprint.keyid:\n                uid |= copy.copy(sig)\n        return uid"),
+    ('C16', 'flags-subset-instead-of-intersection', 'pgpy/decorators.py', "                if self.flags & set(_key._get_key_flags(user)):", "                if self.flags <= set(_key._get_key_flags(user)):"),
+    ('C16', 'subkey-used-but-primary-id-written', 'pgpy/pgp.py', "        sig = PGPSignature.new(sig_type, self.key_algorithm, hash_algo, self.fingerprint.keyid, created=prefs.pop('created', None))\n\n        return self._sign(subject, sig, **prefs)", "        sig = PGPSignature.new(sig_type, self.key_algorithm, hash_algo, (self.parent or self).fingerprint.keyid, created=prefs.pop('created', None))\n\n        return self._sign(subject, sig, **prefs)"),
+    ('C16', 'decrypt-without-unlocked-condition', 'pgpy/pgp.py', "    @KeyAction(is_unlocked=True, is_public=False)\n    def decrypt(self, message):", "    @KeyAction(is_public=False)\n    def decrypt(self, message):"),
+    ('C16', 'sign-without-public-condition', 'pgpy/pgp.py', "    @KeyAction(KeyFlags.Sign, is_unlocked=True, is_public=False)", "    @KeyAction(KeyFlags.Sign, is_unlocked=True)"),
+    ('C16', 'oldest-binding-back', 'pgpy/pgp.py', "        return list(self.self_signatures)[-1].key_flags", "        return next(self.self_signatures).key_flags"),
+    ('C16', 'subkey-preconditions-not-checked', 'pgpy/decorators.py', "                if _key is not key:", "                if False:"),
+    ('C16', 'pkesk-names-primary', 'pgpy/pgp.py', "        pkesk.encrypter = bytearray(binascii.unhexlify(self.fingerprint.keyid.encode('latin-1')))", "        pkesk.encrypter = bytearray(binascii.unhexlify((self.parent or self).fingerprint.keyid.encode('latin-1')))"),
 ]
 
 
@@ -92,6 +99,8 @@ def apply(root, m):
         if o not in s:
             return False
         s = s.replace(o, n)
+    if name == 'encrypt-to-first-subkey-regardless-of-flags':
+        s = s.replace("from .errors import PGPError", "from .errors import PGPError\nfrom .constants import KeyFlags as _KF\nKeyFlags_Enc = {_KF.EncryptCommunications, _KF.EncryptStorage}", 1)
     if name == 'session-key-cached':
         s = s.replace("__all__ = ['PGPSignature',", "_SK = {}\n__all__ = ['PGPSignature',", 1)
     open(p, 'w').write(s)
